@@ -315,6 +315,8 @@ def query (sl : Slot) (name : String) (args : List String) : Option String :=
   | .gr false g, "getOutDegree", [v] => do let v ← nat? v; pure (showRes toString (g.dGetOutDegree v))
   | .gr true g, "getDegree", [v, t] => do
     let v ← nat? v; let t ← flag? t; pure (showRes toString (g.uGetDegree v t))
+  | .gr true g, "getNeighbours", [i] => do
+    let i ← nat? i; pure (showRes joinNat (g.getOutNeighbours i))
   | .mg und m, "hasEdge", [i, j] => do
     let i ← nat? i; let j ← nat? j
     pure (showRes showBool (if und then m.g.uHasEdge i j else m.g.dHasEdge i j))
@@ -377,6 +379,18 @@ def algo (sl : Slot) (verb : String) (args : List String) : Option (List String)
   | "allgeodesics", [s, t], some (_, g), _ => do
     let s ← nat? s; let t ← nat? t
     pure ["R " ++ showRes (fun p => "ok paths: " ++ showPaths p) (findAllGeodesics g s t)]
+  | "pathto", [ps, s, t], some (_, g), _ => do
+    let ps ← nat? ps; let s ← nat? s; let t ← nat? t
+    pure ["R " ++ showRes (fun p => "ok path: " ++ showPath p) (pathTo g ps s t)]
+  | "pathto3", [ps, t], some (_, g), _ => do
+    let ps ← nat? ps; let t ← nat? t
+    pure ["R " ++ showRes (fun p => "ok path: " ++ showPath p) (pathTo3 g ps t)]
+  | "allpathsto", [ps, s, t], some (_, g), _ => do
+    let ps ← nat? ps; let s ← nat? s; let t ← nat? t
+    pure ["R " ++ showRes (fun p => "ok paths: " ++ showPaths p) (allPathsTo g ps s t)]
+  | "allpathsto3", [ps, t], some (_, g), _ => do
+    let ps ← nat? ps; let t ← nat? t
+    pure ["R " ++ showRes (fun p => "ok paths: " ++ showPaths p) (allPathsTo3 g ps t)]
   | "geodesicsfrom", [s], some (_, g), _ => do
     let s ← nat? s
     pure ["R " ++ showRes (fun ps => "ok from: " ++ " ".intercalate (ps.map showPath)) (findGeodesicsFromVertex g s)]
@@ -402,7 +416,7 @@ def algo (sl : Slot) (verb : String) (args : List String) : Option (List String)
 
 def isAlgoVerb (v : String) : Bool :=
   v == "bfs" || v == "allpred" || v == "geodesic" || v == "allgeodesics" || v == "geodesicsfrom" ||
-  v == "allgeodesicsfrom" || v == "dijkstra"
+  v == "allgeodesicsfrom" || v == "dijkstra" || v == "pathto" || v == "pathto3" || v == "allpathsto" || v == "allpathsto3"
 
 
 def ofRes {α} (r : Res α) (f : α → Slot) : Slot × String :=
